@@ -9,7 +9,12 @@ import sys
 
 
 class SimInterrupt(KeyboardInterrupt):
-    """The injected asynchronous interruption (Ctrl-C / MemoryError stand-in)."""
+    """The injected asynchronous interruption (Ctrl-C in a notebook)."""
+
+
+class SimMemoryError(MemoryError):
+    """The injected allocation failure: unlike an interrupt it is an ``Exception``, so
+    ``except Exception`` clauses in the library may swallow or translate it."""
 
 
 _PROTECTED_CODES = None
@@ -53,13 +58,14 @@ def _is_protected(frame, codes):
     return False
 
 
-def run_with_interrupt(fn, n, prefixes, defer=True):
+def run_with_interrupt(fn, n, prefixes, defer=True, exc=None):
     """Run ``fn()``; raise SimInterrupt at the n-th 'line' event in files under ``prefixes``.
 
     Returns (status, info, result): status in {"completed", "interrupted", "swallowed"}.
     ``swallowed`` = the interrupt fired but the op still returned normally (some except
     clause ate it); callers treat the result as unusable either way.
     """
+    exc = exc or SimInterrupt
     cnt = [0]
     fired = [None]
     deferred = [0]
@@ -75,7 +81,7 @@ def run_with_interrupt(fn, n, prefixes, defer=True):
                     return local
                 fn_ = frame.f_code.co_filename
                 fired[0] = [fn_[fn_.rfind("/ufl/") + 1 :], frame.f_code.co_name]
-                raise SimInterrupt()
+                raise exc()
         return local
 
     def tracer(frame, event, arg):
@@ -91,7 +97,7 @@ def run_with_interrupt(fn, n, prefixes, defer=True):
         r = fn()
         status = "completed" if fired[0] is None else "swallowed"
         return status, {"events": cnt[0], "at": fired[0], "deferred": deferred[0]}, r
-    except SimInterrupt:
+    except (SimInterrupt, SimMemoryError):
         return "interrupted", {"events": cnt[0], "at": fired[0], "deferred": deferred[0]}, None
     finally:
         sys.settrace(old)
